@@ -53,6 +53,9 @@ var frags = map[string]frag{
 	"slloop":  {src: "Fslloop []EW", dst: "Fslloop []EW"},
 	"slcast":  {src: "Fslcast []int", dst: "Fslcast []int64"},
 	"sltags":  {src: "Fsltags ETags", dst: "Fsltags ETags"},
+	"slptr":   {src: "Fslptr []*int", dst: "Fslptr []*int"},
+	"slstruct": {src: "Fslstruct []EN", dst: "Fslstruct []EN"},
+	"slnest":  {src: "Fsn EN5", dst: "Fsn EN6", scalars: []string{"Fsn.K:int"}},
 	"nest":    {src: "Fnest EN", dst: "Fnest EN2", scalars: []string{"Fnest.X:int", "Fnest.Y:string"}},
 	"nestE":   {src: "FnestE EN", dst: "FnestE EN2", notes: []string{":conv CvE2 FnestE.X FnestE.X"}, scalars: []string{"FnestE.X:int", "FnestE.Y:string"}},
 	"nestE2":  {src: "FnestD EN3", dst: "FnestD EN4", notes: []string{":conv CvE3 FnestD.In.X FnestD.In.X"}, scalars: []string{"FnestD.In.X:int", "FnestD.In.Y:string", "FnestD.K:int"}},
@@ -99,6 +102,19 @@ type EN3 struct {
 type EN4 struct {
 	In EN2
 	K  int
+}
+
+type EN5 struct {
+	L []int
+	K int
+}
+
+// EN6 differs from EN5 (member Z), so that the two are copied member by member rather than converted as a
+// whole (a whole-struct conversion shares the slices inside, which C16 does not speak about)
+type EN6 struct {
+	L []int
+	K int
+	Z bool
 }
 
 type ETags []string
@@ -238,16 +254,22 @@ func star(b bool) string {
 // struct, getters, hooks.
 func (p *Prog) Decls() string {
 	var sb, sf, df, ms strings.Builder
+	// under :reverse the copy goes from the method's destination operand (D) into its source operand (S):
+	// the fragment's source members live in D and its destination members in S
+	from, to := "S", "D"
+	if p.Style == "argrev" {
+		from, to = "D", "S"
+	}
 	for _, k := range p.Kinds {
 		f := frags[k]
 		if f.src != "" {
 			sf.WriteString("\t" + f.src + "\n")
 		}
 		df.WriteString("\t" + f.dst + "\n")
-		ms.WriteString(strings.ReplaceAll(f.methods, "%T", "S"+p.Name))
+		ms.WriteString(strings.ReplaceAll(f.methods, "%T", from+p.Name))
 	}
-	fmt.Fprintf(&sb, "type S%s struct {\n%s\tExtra int\n}\n\n", p.Name, sf.String())
-	fmt.Fprintf(&sb, "type D%s struct {\n%s\tKeep int\n\tKeepS string\n}\n\n", p.Name, df.String())
+	fmt.Fprintf(&sb, "type %s%s struct {\n%s\tExtra int\n}\n\n", from, p.Name, sf.String())
+	fmt.Fprintf(&sb, "type %s%s struct {\n%s\tKeep int\n\tKeepS string\n}\n\n", to, p.Name, df.String())
 	sb.WriteString(ms.String())
 	hook := func(site string, h Hook, tagInt int, tagStr string) {
 		if !h.On {
@@ -305,8 +327,13 @@ func (p *Prog) Scalars() []string {
 // Notes renders the method's notation lines.
 func (p *Prog) Notes() []string {
 	n := []string{":typecast", ":stringer", ":getter"}
-	if p.Style == "arg" {
+	switch p.Style {
+	case "arg":
 		n = append(n, ":style arg")
+	case "argrev":
+		n = append(n, ":style arg", ":reverse")
+	case "recvptr":
+		n = append(n, ":recv rc")
 	}
 	for _, k := range p.Kinds {
 		n = append(n, frags[k].notes...)
@@ -329,7 +356,19 @@ func (p *Prog) Method() string {
 	if p.RetErr {
 		res = "(" + res + ", error)"
 	}
+	if p.Style == "argrev" {
+		// additional arguments are illegal together with :reverse
+		return fmt.Sprintf("X%s(*S%s) %s", p.Name, p.Name, res)
+	}
 	return fmt.Sprintf("X%s(*S%s, int) %s", p.Name, p.Name, res)
+}
+
+// RegistryExpr is the Go expression of the generated function (a method expression under :recv).
+func (p *Prog) RegistryExpr() string {
+	if p.Style == "recvptr" {
+		return fmt.Sprintf("(*S%s).X%s", p.Name, p.Name)
+	}
+	return "X" + p.Name
 }
 
 // Describe is a one-line description for messages.
